@@ -573,6 +573,7 @@ impl<B: Backend> Compiler<B, CompilerReady> {
             OutputMode::Stdout => {
                 std::io::stdout()
                     .write_all(generated.as_bytes())
+                    .and_then(|_| std::io::stdout().flush())
                     .map_err(|err| {
                         GeneratorError::new(
                             None,
